@@ -49,7 +49,8 @@ def parsePositions? (s : String) : Option (List Nat) := do
 
 /-- `ss recv <sid> <encKeys> <choices> <tape>`            → `<round1 bytes>:<v_x bytes>:<tape bytes used>`
     `ss send <sid> <randomChoices> <decKeys> <round1>`     → `ok:<v_0 bytes><v_1 bytes>` | `ban`
-    `ss adv <sid> <encKeys> <choices> <tape> <devs>`       → `<round1 bytes>`
+    `ss adv <sid> <encKeys> <choices> <tape> <devs>[;<devs>…]` → `<round1 bytes>[,<round1 bytes>…]`
+    `ss verdicts <sid> <randomChoices> <decKeys> <round1>[,<round1>…]` → one char per message (`1` accepted, `0` ban)
     `ss flips <sid> <randomChoices> <decKeys> <round1> <positions>` → one char per listed bit position
                                                               (items `p` or `a-b` = a ≤ p < b, hex, comma-separated):
                                                               verdict of the sender on the message with that bit flipped
@@ -70,17 +71,32 @@ def handle (O : Query → IO Bytes) : List String → IO (Option String)
           | .error _ => pure (some "ban")
       | _, _, _, _ => pure none
   | ["adv", sid, keys, choices, tape, devs] => do
-      match hexToBytes? sid, parseKeys? keys, parseFixed? L_BYTES choices, hexToBytes? tape, parseDevs? devs with
-      | some sid, some keys, some choices, some tape, some (es, gs) =>
+      match hexToBytes? sid, parseKeys? keys, parseFixed? L_BYTES choices, hexToBytes? tape,
+            (devs.splitOn ";").mapM parseDevs? with
+      | some sid, some keys, some choices, some tape, some [(es, gs)] =>
           let r1 ← advReceiver O sid keys choices tape (lookupD es) (lookupD gs)
           pure (some (bytesToHex r1.serialize))
+      | some sid, some keys, some choices, some tape, some sets =>
+          -- several deviation sets `devs;devs;…` against the same honest inputs: the seed expansion is shared
+          let rs ← recvExpand O sid keys
+          let c := (extChoices choices tape).1
+          let ms ← sets.mapM fun (es, gs) => advAfterExpand O sid rs c (lookupD es) (lookupD gs)
+          pure (some (String.intercalate "," (ms.map fun r1 => bytesToHex r1.serialize)))
       | _, _, _, _, _ => pure none
+  | ["verdicts", sid, rc, keys, msgs] => do
+      match hexToBytes? sid, parseFixed? LAMBDA_C_DIV_SOFT_SPOKEN_K rc, parseKeys? keys,
+            (msgs.splitOn ",").mapM parseR1? with
+      | some sid, some rc, some keys, some ms =>
+          let rs ← sendExpand O sid rc keys
+          let vs ← ms.mapM fun r1 => senderVerdict O sid rc rs r1
+          pure (some (String.ofList (vs.map fun v => if v then '1' else '0')))
+      | _, _, _, _ => pure none
   | ["flips", sid, rc, keys, r1, items] => do
       match hexToBytes? sid, parseFixed? LAMBDA_C_DIV_SOFT_SPOKEN_K rc, parseKeys? keys, parseR1? r1,
             parsePositions? items with
       | some sid, some rc, some keys, some r1, some ps =>
           let rs ← sendExpand O sid rc keys
-          let vs ← ps.mapM fun pos => senderVerdict O sid rc rs (tamperBit r1 pos)
+          let vs ← ps.mapM fun pos => senderVerdict O sid rc rs (tamperBitFast r1 pos)
           pure (some (String.ofList (vs.map fun v => if v then '1' else '0')))
       | _, _, _, _, _ => pure none
   | ["tamper", "flip", r1, pos] =>
